@@ -220,9 +220,21 @@ TIES = {
     "C07": TIE_LAYOUT + TIE_META, "C15": TIE_LAYOUT + TIE_META, "C03": ["MAX_SMALL_TS_tie"],
 }
 
+# property-level statements about the TRANSLATED functions (BS/Props/GenCore.lean)
+GENCORE = {
+    "C02": ["gen_seek_spec", "gen_seek_is_model", "fileFits_of_inv"], "C13": ["gen_seek_spec"], "C14": ["gen_seek_spec"],
+    "C10": ["gen_seek_spec"], "C01": ["gen_seek_spec", "gen_write_is_documented_section"],
+    "C11": ["gen_estimate_total", "gen_seek_spec"], "C19": ["gen_estimate_total", "gen_seek_spec"],
+    "C09": ["gen_line_pos_exact", "linePosFits_of_inv"], "C08": ["gen_line_pos_exact"],
+    "C07": ["gen_write_is_documented_section"], "C15": ["gen_write_is_documented_section"],
+}
+
 for _pid, _cfg in PROPS.items():
     _cfg["ties"] = TIES.get(_pid, [])
     mods, thms = THEOREMS.get(_pid, (["BS.Props.C01"], CORE_READER))
+    if _pid in GENCORE:
+        mods = list(mods) + ["BS.Props.GenCore"]
+        thms = list(thms) + [("BS.Props.GenCore", "BS.Gen." + t) for t in GENCORE[_pid]]
     _cfg["lean_modules"] = mods
     _cfg["theorems"] = thms
 
